@@ -2,6 +2,7 @@ package engine
 
 import (
 	"fmt"
+	"sort"
 
 	"github.com/cockroachdb/pebble/verifsim/kvmodel"
 )
@@ -199,6 +200,19 @@ func (g *gen) genMixed(nops int, w mixW) {
 			}
 			g.add(o)
 			g.snaps = append(g.snaps, id)
+			if g.r.IntN(4) == 0 {
+				// close (or read) the snapshot while the flush that would make
+				// it file-only is running
+				for j := g.r.IntN(3); j > 0; j-- {
+					g.add(g.writeOp(w.rangeKeys))
+				}
+				g.add(DBOp{K: "aflush"})
+				if g.r.IntN(2) == 0 {
+					g.add(DBOp{K: "snapscan", ID: id, IO: g.iterOpts(false, false)})
+				}
+				g.add(DBOp{K: "snapclose", ID: id})
+				g.snaps = removeInt(g.snaps, id)
+			}
 		case "snap":
 			closeP := 4
 			if w.longLived {
@@ -209,6 +223,17 @@ func (g *gen) genMixed(nops int, w mixW) {
 				id := g.newID()
 				g.add(DBOp{K: "snap", ID: id})
 				g.snaps = append(g.snaps, id)
+				if g.r.IntN(5) == 0 && !g.disabled["delrange"] {
+					// the very next commit is a wide range deletion (its sequence
+					// number equals the snapshot's), flushed, with time for
+					// table stats and a delete-only compaction; then the
+					// snapshot is read again
+					a, b := g.span()
+					g.add(DBOp{K: "batch", Mode: "direct", Sub: []DBOp{{K: "delrange", Key: a, End: b}}})
+					g.add(DBOp{K: "flush"})
+					g.add(DBOp{K: "wait", N: 1 + g.r.IntN(3000)})
+					g.add(DBOp{K: "snapscan", ID: id, IO: &IterOpts{}})
+				}
 			case g.r.IntN(closeP) == 0:
 				id := pick(&g.r, g.snaps)
 				g.add(DBOp{K: "snapclose", ID: id})
@@ -249,6 +274,45 @@ func (g *gen) genMixed(nops int, w mixW) {
 				}
 				g.add(o)
 				g.iters = append(g.iters, id)
+			case g.r.IntN(8) == 0:
+				// a walk with monotonically moving, non-overlapping bounds (the
+				// way a range scanner reuses one iterator), each step followed
+				// by seeks - including prefix seeks of absent prefixes - at the
+				// new bounds
+				id := pick(&g.r, g.iters)
+				bs := make([]string, 0, 8)
+				for j := 0; j < 8; j++ {
+					bs = append(bs, g.bound())
+				}
+				sort.Slice(bs, func(a, b int) bool { return kvmodel.Compare(bs[a], bs[b]) < 0 })
+				if g.r.IntN(3) == 0 {
+					for a, b := 0, len(bs)-1; a < b; a, b = a+1, b-1 {
+						bs[a], bs[b] = bs[b], bs[a]
+					}
+				}
+				for j := 0; j+1 < len(bs); j++ {
+					lo, hi := bs[j], bs[j+1]
+					if kvmodel.Compare(lo, hi) > 0 {
+						lo, hi = hi, lo
+					}
+					if lo == hi {
+						continue
+					}
+					g.add(DBOp{K: "iterop", ID: id, Mode: "setbounds", Key: lo, End: hi})
+					switch g.r.IntN(5) {
+					case 0:
+						g.add(DBOp{K: "iterop", ID: id, Mode: "seekprefixge", Key: g.seekKey()})
+					case 1:
+						g.add(DBOp{K: "iterop", ID: id, Mode: "seekprefixge", Key: lo})
+					case 2:
+						g.add(DBOp{K: "iterop", ID: id, Mode: "seeklt", Key: hi})
+					case 3:
+						g.add(DBOp{K: "iterop", ID: id, Mode: "seekge", Key: lo})
+						g.add(DBOp{K: "iterop", ID: id, Mode: "next"})
+					default:
+						g.add(DBOp{K: "iterop", ID: id, Mode: "seekge", Key: lo})
+					}
+				}
 			default:
 				id := pick(&g.r, g.iters)
 				n := 1 + g.r.IntN(iterOps)
